@@ -26,16 +26,17 @@ static void build_events(int for_conc) {
 #ifndef VF_TSANABI
 /* ================================================================ sequential clause */
 #include "../mc/e3.h"
-static void sname(int ev, char *b, size_t cap) { char n[140]; pev_name(&EV[ev % NEVT], n, sizeof n); snprintf(b, cap, "if%c: %s", ev < NEVT ? 'A' : 'B', n); }
-static int touches(int ev, int w) { return w == 0 || w == (ev < NEVT ? 1 : 2); }
-static void apply3(int ev, int w) { (void)w; drv_linux(&EV[ev % NEVT], ev < NEVT ? 0 : 1); }
-static const char *sig_of(int ev) { static char b[40]; snprintf(b, sizeof b, "if%c,op=0x%02x", ev < NEVT ? 'A' : 'B', EV[ev % NEVT].opcode); return b; }
+static int NI = 2;       /* interfaces in the combined world (seq: 2, seq3: 3) */
+static void sname(int ev, char *b, size_t cap) { char n[140]; pev_name(&EV[ev % NEVT], n, sizeof n); snprintf(b, cap, "if%c: %s", 'A' + ev / NEVT, n); }
+static int touches(int ev, int w) { return w == 0 || w == ev / NEVT + 1; }
+static void apply3(int ev, int w) { (void)w; drv_linux(&EV[ev % NEVT], ev / NEVT); }
+static const char *sig_of(int ev) { static char b[40]; snprintf(b, sizeof b, "if%c,op=0x%02x", 'A' + ev / NEVT, EV[ev % NEVT].opcode); return b; }
 static void after(int ev, int w) {
-    int want = ev < NEVT ? 0 : 1;
+    int want = ev / NEVT;
     for (uint32_t i = 0; i < W.ntrace; i++) if (W.trace[i].kind == VF_T_SEND && W.trace[i].iface != want)
-        vf_violation("isolation:sent-on-the-other-interface", "a frame received on interface %c made the responder transmit on interface %u (world %d)", want ? 'B' : 'A', W.trace[i].iface, w);
+        vf_violation("isolation:sent-on-the-other-interface", "a frame received on interface %c made the responder transmit on interface %u (world %d)", 'A' + want, W.trace[i].iface, w);
 }
-static void seed_from_prefix(const int *p, int n, vf_snap **s) { (void)p; (void)n; vf_world_reset(); for (int k = 0; k < 3; k++) s[k] = vf_snapshot(NULL, 0); }
+static void seed_from_prefix(const int *p, int n, vf_snap **s) { (void)p; (void)n; vf_world_reset(); for (int k = 0; k <= NI; k++) s[k] = vf_snapshot(NULL, 0); }
 static e3_cfg c3 = { .nworlds = 3, .ev_name = sname, .pre_name = sname, .touches = touches, .apply = apply3, .after_apply = after, .sig_prefix = "isolation:interleaved-trace-differs-from-solo",
                      .sig_of = sig_of, .same_iface = 1, .seed_from_prefix = seed_from_prefix };
 
@@ -45,11 +46,15 @@ int main(int argc, char **argv) {
     /* the two interfaces differ in every attribute */
     W.iface[1].flags = 0x0800; W.iface[1].iftype = 71; W.iface[1].speed = 540000; W.iface[1].wifi = !A.wifi; W.iface[1].mtu = A.mtu == 1500 ? 576 : 1500;
     build_events(0);
-    c3.nev = 2 * NEVT; c3.deadline_s = A.deadline;
+    if (!strcmp(A.mode, "seq3")) {      /* three interfaces: a smaller per-interface alphabet keeps the cube closable */
+        NI = 3; W.iface[2].flags = 0x2800; W.iface[2].iftype = 6; W.iface[2].speed = 1000; W.iface[2].mtu = 9216;
+        EV[1] = EV[2]; EV[2] = EV[3]; EV[3] = EV[4]; EV[4] = EV[6]; NEVT = 5;      /* Discover(M1), Probe, Query, icon request, Reset */
+    }
+    c3.nworlds = NI + 1; c3.nev = NI * NEVT; c3.deadline_s = A.deadline;
     if (A.replay) { A.verbose = 1; return e3_replay_file(&c3, A.replay); }
     double t0 = vf_now_s();
     e3_begin(&c3);
-    vf_snap *s[3]; seed_from_prefix(NULL, 0, s); int none = 0; e3_add_seed(s, &none, 0);
+    vf_snap *s[E3_MAXW]; seed_from_prefix(NULL, 0, s); int none = 0; e3_add_seed(s, &none, 0);
     e3_stats st; e3_run(&st);
     R.states = st.states; R.transitions = st.executions; R.evaluations = st.executions; R.max_depth = st.max_depth; R.fixpoint = st.fixpoint; R.exhaustive = st.fixpoint; R.cap_hit = st.cap;
     vf_extra("triples", "%llu reachable (W, S_A, S_B) triples, %llu events applied (%llu executions of the real handler)", (unsigned long long)st.states, (unsigned long long)st.transitions, (unsigned long long)st.executions);
